@@ -111,7 +111,14 @@ func ConvB(b []byte) []byte {
 // Acc is inserted before every statement that touches a package-level variable.
 func Acc(site, varID int, write bool) {
 	if sched != nil {
-		sched.access(site, varID, write, false)
+		sched.access(site, varID, write, false, "")
+	}
+}
+
+// AccF is Acc for an access that goes to one struct field of the variable: different fields are different locations.
+func AccF(site, varID int, write bool, field string) {
+	if sched != nil {
+		sched.access(site, varID, write, false, field)
 	}
 }
 
@@ -125,7 +132,7 @@ var StaticWriteSites []int
 // AccRecv reports an access through a method receiver: if the receiver is (the address or the pointer value
 // of) one of the candidate package-level variables, it is an access to that variable - made at the statement
 // that touches the object, inside whatever critical section the method has entered.
-func AccRecv(site int, recv any, write bool, cands ...int) {
+func AccRecv(site int, recv any, write bool, field string, cands ...int) {
 	if sched == nil || len(StateVars) == 0 {
 		return
 	}
@@ -140,11 +147,11 @@ func AccRecv(site int, recv any, write bool, cands ...int) {
 		}
 		pv := reflect.ValueOf(sv.Ptr) // pointer to the variable
 		if pv.Pointer() == rp.Pointer() {
-			Acc(site, id, write)
+			sched.access(site, id, write, false, field)
 			return
 		}
 		if ev := pv.Elem(); ev.Kind() == reflect.Ptr && !ev.IsNil() && ev.Pointer() == rp.Pointer() {
-			sched.access(site, id, write, true)
+			sched.access(site, id, write, true, field)
 			return
 		}
 	}
